@@ -88,7 +88,7 @@ fn typed_test_condition_regex() -> &'static Pattern {
 
 fn function_call_regex() -> &'static Pattern {
     FUNCTION_CALL_REGEX.get_or_init(|| {
-        Pattern::new(r#"([a-zA-Z_]\w*)\s*\(([^)]*)\)\s*(>=|<=|==|!=|>|<|contains|startsWith|endsWith|matches|in)\s*(.+)"#)
+        Pattern::new(r#"^([a-zA-Z_]\w*)\s*\(([^)]*)\)\s*(>=|<=|==|!=|>|<|contains|startsWith|endsWith|matches|in)\s*(.+)"#)
             .expect("Invalid function call regex")
     })
 }
